@@ -37,8 +37,11 @@ m = {
  "notes": "All checks: ./check <id> --tier quick|thorough; VERIF_SEED honoured; evidence rewritten on every run; known findings in known_findings.json.",
  "not_applicable": []
 }
+CATS = ("exploration", "fault_enumeration", "model_checking", "proof", "translation_validation", "other")
 for f in frags:
     pid = f["property_id"]
+    if f.get("category", "proof") not in CATS:
+        raise SystemExit("manifest.d/%s.json: category %r is not one of %s" % (pid, f.get("category"), CATS))
     m["checks"].append({
      "property_id": pid,
      "quick_cmd": "./check %s --tier quick" % pid,
